@@ -1,0 +1,35 @@
+//go:build verif
+
+package vigil
+
+// Machine-checked contracts (comment-only; compiled only with -tags verif).
+//
+// Monitor rule that excludes lost wake-ups for WaitForActiveVigilsClosed: the predicate
+// the waiter loops on (vigils > 0) may be turned from true to false only while cond.L is
+// held, and such a change must be followed by Broadcast/Signal before the lock is released.
+// (Termination itself additionally needs a fair scheduler; that part is not decided.)
+
+//@ type vigil
+//@   cond cond on mu
+//@   invariant[cond_set] self.cond != nil
+//@   waitcond mu [active_vigils] self.vigils > 0
+
+//@ func (*vigil).BeginVigil(v)
+//@   property C17
+//@   nopanic
+//@   overflow: assumed
+//@   modifies v.vigils
+//@   ensures[counted] v.vigils == old(v.vigils) + 1
+
+//@ func (*vigil).CeaseVigil(v)
+//@   property C17
+//@   nopanic
+//@   overflow: assumed
+//@   modifies v.vigils
+//@   ensures[counted] v.vigils == old(v.vigils) - 1
+
+//@ func (*vigil).WaitForActiveVigilsClosed(v)
+//@   property C17
+//@   nopanic
+//@   modifies *
+//@   csensures[drained] v.vigils <= 0
